@@ -13,7 +13,12 @@ static void mon_read_result(struct DataAccess *obj, _Bool ok) { (void)obj; (void
 #endif
 static uint8_t h_crc_data[CRC_MAXLEN];
 static unsigned short h_crc_pref[CRC_MAXLEN + 1];
+#ifdef VERIF_TRACK_UNBOUNDED     /* jobs in which the track is only named by specifications (CELL), never indexed by code: the
+                                    contents as a function of position; lengths stay bounded by TRACK_BYTES in BS_OK */
+static byte h_track[__CPROVER_constant_infinity_uint];
+#else
 static byte h_track[TRACK_BYTES];
+#endif
 static unsigned g_bit;                /* ghost bit index 0..7 */
 #define SPEC_SHIFT_(c) ((((c) & 0x8000ul) ? ((((c) << 1) ^ 0x1021ul)) : ((c) << 1)) & 0xFFFFul)
 /* the specification of the byte step: XOR the byte into the top, then 8 bit-serial shifts */
@@ -33,8 +38,8 @@ static void h_fill_crc(unsigned long init)
 #define CRC_UPDATE_LOOP_CONTRACT \
   __CPROVER_assigns(p, crc_, __CPROVER_object_whole(h_inner)) \
   __CPROVER_loop_invariant(__CPROVER_same_object(p, start) && __CPROVER_POINTER_OFFSET(p) >= __CPROVER_POINTER_OFFSET(start) && __CPROVER_POINTER_OFFSET(p) <= __CPROVER_POINTER_OFFSET(end)) \
-  __CPROVER_loop_invariant(__CPROVER_POINTER_OFFSET(p) - __CPROVER_POINTER_OFFSET(start) <= CRC_MAXLEN && __CPROVER_POINTER_OFFSET(p) >= __CPROVER_POINTER_OFFSET(start) && \
-                           crc_ == h_crc_pref[__CPROVER_POINTER_OFFSET(p) - __CPROVER_POINTER_OFFSET(start)] && crc_ <= 0xFFFFul) \
+  __CPROVER_loop_invariant(__CPROVER_POINTER_OFFSET(p) <= CRC_MAXLEN && __CPROVER_POINTER_OFFSET(p) >= __CPROVER_POINTER_OFFSET(start) && \
+                           crc_ == h_crc_pref[__CPROVER_POINTER_OFFSET(p)] && crc_ <= 0xFFFFul) \
   __CPROVER_decreases(__CPROVER_POINTER_OFFSET(end) - __CPROVER_POINTER_OFFSET(p))
 /* ghost for the 8-step inner loop: h_inner[j] = state after j bit steps of the current byte (set up, by an
    extraction rule, just before the inner loop; loop-free) */
@@ -56,8 +61,102 @@ static unsigned long h_inner[9];
 #include "BitStream_getbit.inc"
 #include "BitStream_size.inc"
 static unsigned long g_diag;
+/* CELL / CELL_IN as in contracts/dfs_track.h (needed by the loop contract before that header is included) */
+#define CELL_IN(bs, p) ((p) * VERIF_STRIDE + (bs)->first_ < (bs)->raw_bit_size_)     /* BS_OK: stride_ == VERIF_STRIDE */
+#define CELL(bs, p) (((h_track[((p) * VERIF_STRIDE + (bs)->first_) / 8] >> (((p) * VERIF_STRIDE + (bs)->first_) % 8)) & 1) != 0)
+#define MFM_BYTE_LOOP_CONTRACT \
+  __CPROVER_assigns(bitnum, pos, prev_data_bit, data, g_diag) \
+  __CPROVER_loop_invariant(0 <= bitnum && bitnum <= 8 && pos == began_at + 2 * (size_t)bitnum && g_diag == __CPROVER_loop_entry(g_diag)) \
+  __CPROVER_loop_invariant(CELL_IN(bits, pos - 1) && prev_data_bit == CELL(bits, pos - 1) && data < (1u << bitnum)) \
+  __CPROVER_loop_invariant((g_bit < (unsigned)bitnum) ==> \
+     ((((data >> ((unsigned)(bitnum - 1) - g_bit)) & 1) != 0) == CELL(bits, began_at + 2 * g_bit + 1) && \
+      CELL(bits, began_at + 2 * g_bit) == !(CELL(bits, began_at + 2 * g_bit - 1) || CELL(bits, began_at + 2 * g_bit + 1)))) \
+  __CPROVER_decreases(8 - bitnum)
 #include "mfm_read_byte.inc"
 #include "dfs_track.h"
+
+/* ================= the MFM decoder (contracts/dfs_mfm.h) ========================================================= */
+#include "track_constants.inc"
+#include "dfs_mfm.h"
+/* ---- models of the std::vector<byte> operations used by the extracted code (trusted) ---- */
+static void decvec_push(struct decvec *v, byte val)                 /* push_back */
+{
+  __CPROVER_assert(v->n < DECVEC_CAP, "model: vector storage of DECVEC_CAP bytes");
+  h_vec_store[v->n] = val; v->n = v->n + 1;
+}
+static byte *decvec_at(struct decvec *v, size_t i)                  /* operator[]: undefined at or beyond size() */
+{
+  __CPROVER_assert(i < v->n, "C07: vector index is below size()");
+  return &h_vec_store[i];
+}
+#define DECVEC_AT(v, i) (*decvec_at((v), (size_t)(i)))
+/* the constant A1 A1 A1 array of check_crc_with_a1s sits at the front of the logical CRC stream; its contents, taken from
+   the source initialiser, must be the stream's first bytes */
+static const byte *crc_stream_place(const byte *src, size_t n)
+{
+  __CPROVER_assert(n == 3 && src[0] == h_crc_data[0] && src[1] == h_crc_data[1] && src[2] == h_crc_data[2],
+                   "C06: the CRC is computed over the three A1 sync bytes first");
+  return h_crc_data;
+}
+#define SCAN_LOOP_CONTRACT \
+  __CPROVER_assigns(i, i_cooked, shifter, got) \
+  __CPROVER_loop_invariant(i_cooked >= start && i_cooked <= start + self->raw_bit_size_ && i == i_cooked * self->stride_ + self->first_) \
+  __CPROVER_loop_invariant(got == ((i_cooked - start >= 64) ? 0xFFFFFFFFFFFFFFFFull : ((1ull << ((i_cooked - start) & 63)) - 1ull))) \
+  __CPROVER_loop_invariant((g_p >= start && g_p < i_cooked && i_cooked - 1 - g_p < 64 && g_p * self->stride_ + self->first_ < self->raw_bit_size_) ==> \
+                           ((((shifter >> ((i_cooked - 1 - g_p) & 63)) & 1) != 0) == CELL(self, g_p)))
+#define COPY_MFM_LOOP_CONTRACT \
+  __CPROVER_assigns(n, thisbit, out->n, __CPROVER_object_whole(h_crc_data), g_diag) \
+  __CPROVER_loop_invariant(n <= __CPROVER_loop_entry(n) && out->n == __CPROVER_loop_entry(out->n) + (__CPROVER_loop_entry(n) - n) && \
+                           thisbit == __CPROVER_loop_entry(thisbit) + 16 * (__CPROVER_loop_entry(n) - n) && g_diag == __CPROVER_loop_entry(g_diag) && CELL_IN(bits, thisbit - 1)) \
+  COPY_MFM_CONTENT_INVARIANT
+#ifdef VERIF_COPY_NOCONTENT
+#define COPY_MFM_CONTENT_INVARIANT
+#else
+#define COPY_MFM_CONTENT_INVARIANT \
+  __CPROVER_loop_invariant((g_m < __CPROVER_loop_entry(n) - n) ==> \
+     ((((h_vec_store[__CPROVER_loop_entry(out->n) + g_m] >> (7 - g_bit)) & 1) != 0) == CELL(bits, __CPROVER_loop_entry(thisbit) + 16 * g_m + 2 * g_bit + 1) && \
+      CELL(bits, __CPROVER_loop_entry(thisbit) + 16 * g_m + 2 * g_bit) == \
+        !(CELL(bits, __CPROVER_loop_entry(thisbit) + 16 * g_m + 2 * g_bit - 1) || CELL(bits, __CPROVER_loop_entry(thisbit) + 16 * g_m + 2 * g_bit + 1))))
+#endif
+#include "BitStream_scan_for.inc"
+#include "copy_mfm_bytes.inc"
+#include "CCITT_CRC16_init.inc"
+#include "CRC16Base_get.inc"
+#include "check_crc_with_a1s.inc"
+#include "decode_sector_address_and_size.inc"
+static unsigned long CRC16Base_get(const struct CRC16Base *self)
+__CPROVER_requires(__CPROVER_is_fresh(self, sizeof(*self))) __CPROVER_assigns()
+__CPROVER_ensures(__CPROVER_return_value == self->crc_);
+static unsigned long CCITT_CRC16_init(void)
+__CPROVER_assigns() __CPROVER_ensures(__CPROVER_return_value == 0xFFFFul);     /* CRC-16/CCITT as used on disc: initial value 0xFFFF */
+
+void h_scan_for(void) { struct BitStream *b; g_p = nondet_size_t(); BitStream_scan_for(b, nondet_size_t(), nondet_ulong(), nondet_ulong()); }
+void h_crc_get(void) { struct CRC16Base *c; CRC16Base_get(c); }
+void h_crc_init(void) { CCITT_CRC16_init(); }
+void h_copy_mfm(void)
+{
+  struct BitStream *b; size_t *pos; struct decvec *v;
+  g_bit = nondet_uint(); __CPROVER_assume(g_bit < 8); g_m = nondet_size_t(); g_diag = nondet_ulong();
+  _Bool ok = copy_mfm_bytes(b, pos, nondet_size_t(), v);
+  VERIF_COVER(ok && v->n == 7, "seven bytes copied");
+  VERIF_COVER(!ok, "copy failed");
+}
+void h_check_crc(void)
+{
+  struct decvec *v;
+  h_crc_data[0] = 0xA1; h_crc_data[1] = 0xA1; h_crc_data[2] = 0xA1;
+  h_fill_crc(0xFFFFul);                /* the specification: bit-serial CRC over A1 A1 A1 ++ data */
+  g_diag = nondet_ulong();
+  _Bool ok = check_crc_with_a1s(v);
+  VERIF_COVER(ok && v->n == 7, "a 7-byte ID field with a good CRC");
+  VERIF_COVER(!ok, "CRC mismatch");
+}
+void h_decode_addr(void)
+{
+  const byte *h; struct SectorAddress *a; int *z;
+  g_diag = nondet_ulong();
+  decode_sector_address_and_size(h, a, z);
+}
 
 void h_crc_cycle(void) { crc_cycle(nondet_ulong()); }
 void h_crc_update_bit(void) { struct CRC16Base *c; CRC16Base_update_bit(c, nondet_bool()); }
@@ -67,9 +166,9 @@ void h_crc_update(void)
   unsigned long init = nondet_ulong();
   __CPROVER_assume(init <= 0xFFFFul);
   h_fill_crc(init);
-  size_t n = nondet_size_t();
-  __CPROVER_assume(n <= CRC_MAXLEN);
-  CRC16Base_update(c, h_crc_data, h_crc_data + n);
+  size_t off = nondet_size_t(), n = nondet_size_t();
+  __CPROVER_assume(off <= CRC_MAXLEN && n <= CRC_MAXLEN - off);      /* any segment of the stream */
+  CRC16Base_update(c, h_crc_data + off, h_crc_data + off + n);
 }
 void h_crc_update_one(void)
 {
